@@ -113,3 +113,8 @@ def streams(tier, rng):
         cases = [make(rng) for _ in range(n if fl == 'default' else n // 3)]
         yield {'name': 'streams-' + fl, 'flavor': fl, 'cases': cases, 'model': fl in ('default',), 'project': project,
                'nontrivial': lambda c, o: c if (' H' in o or ' E-1' in o or ' E-2' in o) else None}
+    # the formatting helpers a handler may call on what it decoded (exact-size buffers; judged by the sanitizer only)
+    from props import C15
+    for st in C15.streams(tier, rng):
+        if st['name'] in ('fill-default', 'copy-text'):
+            yield {'name': 'helpers-' + st['name'], 'cases': st['cases'][::2], 'model': False, 'nontrivial': lambda c, o: c}
